@@ -11,6 +11,10 @@ from ..gfi.common import run_for
 def run(chk, prog):
     n, obs = run_for(chk, prog, "C11", ALL)
     chk.floor("obligations tagged C11", n, 40)
+    # "a constraint at index i affects only element i": Indexed.get_inner_map masks the sub-map with (addr == i), and the mask reaches the leaves only if every
+    # container's filter / get_inner_map recurses into every child (C17's CHM-RECURSE)
+    from ._share import take
+    take(chk, prog, "C17", lambda o: o["rule"] == "CHM-RECURSE", "choice-map container recursion (from C17)", 8)
     chk.explanation = "structural-induction obligations for C11: vmap/repeat (IDX-ALIGN, in_axes agreement, SCORE-AGG, zero length, repeat wiring); each inner GFI call is an opaque atom (induction hypothesis), the derived provenance terms / linear forms are compared with the oracle table"
     for o in [o for o in obs.items if "C11" in o["props"]][:6]:
         chk.sample({"rule": o["rule"], "instance": o["instance"], "derived": o["derived"][:200], "expected": o["expected"][:160]})
